@@ -6,7 +6,7 @@ ID=$1; WT=${2:-/tmp/wt/$ID}; PATCH=${3:-/tmp/wt/$ID.patch.diff}
 OUT=/verif/seeded/$ID; mkdir -p $OUT
 cd $WT || exit 2
 DEMO=$(ls demo_*.py | head -1)
-git stash -q -- mujoco_warp 2>/dev/null || git checkout -q -- mujoco_warp
+# never `git stash` here: the stash is shared by all worktrees of the repository
 git checkout -q -- mujoco_warp
 /venv/bin/python $DEMO > $OUT/demo_without.log 2>&1; RC0=$?
 git apply $PATCH || { echo "patch does not apply"; exit 2; }
